@@ -122,12 +122,15 @@ func spaces(thorough bool) []Space {
 	}
 	if thorough {
 		for _, sp := range main {
+			if strings.Contains(sp.Name, "-frac") {
+				continue
+			}
 			out = append(out, twin(sp, "edge"))
 		}
 	}
 	for _, sp := range main {
-		if !thorough && strings.HasSuffix(sp.Name, "-expiry") {
-			continue // the watcher spaces do not depend on key values; quick tier: wide only
+		if strings.Contains(sp.Name, "-frac") || (!thorough && strings.HasSuffix(sp.Name, "-expiry")) {
+			continue // the amount-unit spaces (both tiers) / the watcher spaces (quick tier) do not depend on key values: wide only
 		}
 		out = append(out, twin(sp, "plain"))
 	}
@@ -139,7 +142,7 @@ func spaces(thorough bool) []Space {
 func baseSpaces(thorough bool) (main, deep []Space) {
 	lo := []string{"ok", "lo"}
 	if !thorough {
-		return append([]Space{
+		return append(append(fracSpaces(false), []Space{
 			{Name: "regular", Kind: "regular", Pays: []string{"L", "Mr0", "Mr+", "Mr-", "Mw0"}, Amts: amts5, Exps: lo, Ctl: ctlR, Depth: 4},
 			{Name: "hold", Kind: "hold", Pays: []string{"L", "Mr0", "Mr+", "Mr-", "Mw0"}, Amts: amts5, Exps: lo, Ctl: ctlH, Depth: 4},
 			{Name: "zero", Kind: "zero", Pays: []string{"L", "Mr0", "Mr-", "Mw0"}, Amts: amts5, Exps: lo, Ctl: ctlR, Depth: 4},
@@ -147,13 +150,13 @@ func baseSpaces(thorough bool) (main, deep []Space) {
 			{Name: "keysend", Kind: "keysend", Pays: []string{"Kr", "Kw", "Km", "L", "Mr0"}, Amts: amts5, Exps: lo, Ctl: ctlR, Depth: 4},
 			{Name: "amp", Kind: "amp", Pays: []string{"A10r0g", "A11r0g", "A11r0b", "A11r+g", "A11w0g", "A2sr0g", "Mr0", "L"}, Amts: amts3, Exps: lo, Ctl: ctlR, Depth: 3},
 			{Name: "amp-core", Kind: "amp", Pays: []string{"A10r0g", "A11r0g", "A11r0b", "A2sr0g"}, Amts: []int64{valueV / 2, valueV}, Exps: []string{"ok"}, Ctl: ctlR, Depth: 4},
-		}, append(specialSpaces(4, false), configSpaces(false)...)...), nil
+		}...), append(specialSpaces(4, false), configSpaces(false)...)...), nil
 	}
 	exps := []string{"ok", "lo", "hi"}
 	ctlR4 := []string{"r:1", "r:2", "r:3", "r:4", "c", "t", "b"}
 	ctlH4 := []string{"r:1", "r:2", "r:3", "r:4", "c", "s:r", "s:w", "t", "b"}
 	// ordered so that the largest spaces run last (a deadline then caps only them)
-	return append(append(specialSpaces(5, true), configSpaces(true)...), []Space{
+	return append(append(append(specialSpaces(5, true), configSpaces(true)...), fracSpaces(true)...), []Space{
 		{Name: "ampjit", Kind: "ampjit", Pays: []string{"A10r0g", "A11r0g", "A11r0b", "A11r+g", "A2sr0g", "A2sr-g"}, Amts: amts3, Exps: exps, Ctl: ctlR, Depth: 3},
 		{Name: "keysend", Kind: "keysend", Pays: []string{"Kr", "Kw", "Km", "L", "Mr0"}, Amts: amts5, Exps: exps, Ctl: ctlR, Depth: 5},
 		{Name: "zero", Kind: "zero", Pays: []string{"L", "Mr0", "Mr+", "Mr-", "Mw0"}, Amts: amts5, Exps: exps, Ctl: ctlR, Depth: 4},
@@ -168,6 +171,88 @@ func baseSpaces(thorough bool) (main, deep []Space) {
 		{Name: "hold-deep", Kind: "hold", Pays: []string{"L", "Mr0", "Mr+"}, Amts: amts3, Exps: []string{"ok"}, Ctl: ctlH4, Depth: 6, Keys: 4},
 		{Name: "amp-deep", Kind: "amp", Pays: []string{"A10r0g", "A11r0g", "A11r0b", "A2sr0g"}, Amts: []int64{valueV / 2, valueV}, Exps: []string{"ok"}, Ctl: ctlR4, Depth: 6, Keys: 4},
 	}
+}
+
+// fracSpaces: the UNIT of the amounts. lnd's invoice values, declared totals and HTLC amounts are
+// milli-satoshis; every other space uses an invoice value that is a whole number of satoshis, for
+// which "total >= value" and "sum >= total" evaluated in truncated units (ToSatoshis, /1000, a
+// rounded conversion) give the same answers as the exact comparison. Here the invoice value has a
+// non-zero msat remainder, v = 2000 + r (r in {1, 500, 999}; kinds "<base>-f<r>"), and the declared
+// totals AND the delivered sums range over
+//
+//	m = v-1000 (one satoshi below)   f = floor_sat(v) = 2000   - = v-1   0 = v   + = v+1
+//
+// for the MPP, blinded-path (path id + total), AMP and legacy forms, as a single HTLC (amount = each
+// of the five values) and as a set of two (1000 + each value less 1000); just-in-time keysend / held
+// keysend payments take the amounts 2000+r themselves (the invoice is created with the HTLC's
+// amount). Every amount x every total is an event (full cross product); oracle unchanged: a set is
+// settled only if its members declare one common total >= the invoice value (in msat) and sum to at
+// least that total.
+//
+// quick: r = 500 on every kind with totals {f, -, 0} (the truncated value, one msat below, exact),
+// r = 1 and r = 999 on the regular kind (the two ends of the remainder range: a rounding conversion
+// treats them differently), depth 3 (AMP 2); thorough: all r x all five totals, one event deeper (AMP:
+// depth 2 on the full alphabet of 109 / 139 events; depth 3 measured at 15 k states, 2.5 min per r).
+func fracSpaces(thorough bool) []Space {
+	tots, d := "f-0", 0
+	if thorough {
+		tots, d = "mf-0+", 1
+	}
+	ok := []string{"ok"}
+	var out []Space
+	for _, r := range fracRems {
+		v := fracBase + r
+		// the amount alphabet: each total as one HTLC, and as 1000 + the rest
+		var amts []int64
+		seen := map[int64]bool{}
+		add := func(a int64) {
+			if !seen[a] {
+				seen[a] = true
+				amts = append(amts, a)
+			}
+		}
+		add(1000)
+		for _, t := range tots {
+			tv := int64(htlcSpec{Tot: byte(t), V: uint64(v)}.totalOf())
+			add(tv - 1000)
+			add(tv)
+		}
+		sort.Slice(amts, func(i, j int) bool { return amts[i] < amts[j] })
+		form := func(pre, post string) []string {
+			var f []string
+			for _, t := range tots {
+				f = append(f, pre+string(t)+post)
+			}
+			return f
+		}
+		name := func(base string) string { return fmt.Sprintf("%s-frac%d", base, r) }
+		reg := Space{Name: name("regular"), Kind: fracKind("regular", r), Pays: append([]string{"L"}, form("Mr", "")...), Amts: amts, Exps: ok,
+			Ctl: []string{"r:1", "r:2", "c", "t"}, Depth: 3 + d}
+		if !thorough && r != 500 {
+			out = append(out, reg)
+			continue
+		}
+		out = append(out, reg,
+			Space{Name: name("hold"), Kind: fracKind("hold", r), Pays: append([]string{"L"}, form("Mr", "")...), Amts: amts, Exps: ok,
+				Ctl: []string{"r:1", "c", "s:r", "t"}, Depth: 3 + d},
+			Space{Name: name("blinded"), Kind: fracKind("blinded", r), Pays: append([]string{"L"}, form("Pr", "")...), Amts: amts, Exps: ok,
+				Ctl: []string{"r:1", "r:2", "c", "t"}, Depth: 3 + d},
+			Space{Name: name("amp"), Kind: fracKind("amp", r), Pays: append(append(form("A2sr", "g"), form("A10r", "g")...), form("A11r", "g")...), Amts: amts, Exps: ok,
+				Ctl: []string{"r:1", "r:2", "c", "t"}, Depth: 2},
+		)
+	}
+	// spontaneous payments: the just-in-time invoice takes the HTLC's amount as its value
+	ks := []int64{fracBase}
+	for _, r := range fracRems {
+		ks = append(ks, fracBase+r)
+	}
+	out = append(out, Space{Name: "keysend-frac", Kind: "keysend", Pays: []string{"Kr", "Km", "L"}, Amts: ks, Exps: ok,
+		Ctl: []string{"r:1", "r:2", "c", "t"}, Depth: 3 + d})
+	if thorough {
+		out = append(out, Space{Name: "kshold-frac", Kind: "kshold", Pays: []string{"Kr"}, Amts: ks, Exps: ok,
+				Ctl: []string{"r:1", "r:2", "c", "s:r", "t"}, Depth: 4})
+	}
+	return out
 }
 
 // specialSpaces: one space per kind whose value alphabets consist of the structural
@@ -706,7 +791,9 @@ func TestC15(t *testing.T) {
 			"amounts {499,500,501,1000,1001}, declared totals {999,1000,1001,absent}, address {right,wrong,absent}, expiry {margin-1,margin,margin+1} above the base height, heights base..base+2; histories up to the per-space depth bound; "+
 			"plus one '-special' space per kind over the structural special values the invoices package singles out: all-zero payment address / path id (BlankPayAddr), declared total 0, all-zero AMP set id, all-zero payment hash, all-zero preimage (keysend record, hold settle), amount 0, expiry 0, crossed with amounts {0,500,1000}; "+
 			"in the special spaces of the invoices created up front also: expiry 2^31 and 2^32-1, amounts 2^62 / 2^63 and declared totals 2^62 / 2^63 (the int64 boundary of the SQL schema), a keysend record with a foreign / all-zero preimage on an HTLC that pays the invoice, an AMP record on an HTLC that carries the address of a non-AMP invoice, "+
-			"and a SECOND (bystander) invoice in the store with HTLCs that combine the hash of one invoice with the payment address of the other (both orders), the bystander's hash with a wrong / blank / no address",
+			"and a SECOND (bystander) invoice in the store with HTLCs that combine the hash of one invoice with the payment address of the other (both orders), the bystander's hash with a wrong / blank / no address; "+
+			"plus the '-frac' spaces over the UNIT of the amounts: invoice values with a milli-satoshi remainder v = 2000 + r (quick: r = 500 on the regular / hold / AMP / blinded kinds, r = 1 and 999 on the regular kind; thorough: every r on every kind), "+
+			"declared totals and delivered sums in {floor_sat(v), v-1, v} (thorough: also v-1000, v+1) as one HTLC and as 1000 + the rest, keysend amounts 2000 + r",
 		"registry configuration explored: FinalCltvRejectDelta 10 against invoice deltas 8 / 10 / 12 (either margin binding); HtlcHoldDuration 10 s; AcceptKeySend / AcceptAMP off, on for the just-in-time kinds, and on in front of an invoice created up front (regular-jit); "+
 			"KeysendHoldTime 0 and 1 h (kshold kinds: the spontaneous keysend invoice is a hold invoice); GcCanceledInvoicesOnTheFly / GcCanceledInvoicesOnStartup off and on (kinds *-gcf, *-gcs, *-gc); HtlcInterceptor answering nothing, CancelSet or AmountPaid for single HTLCs (the *-icpt spaces; an HTLC whose amount the interceptor replaced counts with the replaced amount)",
 		"restart event R (the *-restart spaces, kshold): the registry is stopped and a new one started on the same store with the same clocks; the links come back with a new hodl channel; subscriptions and auto-release timers exist again only for HTLCs that were replayed to the new instance (part of the state key); "+
